@@ -638,6 +638,33 @@ def native_delimited_roundtrip():
             if not verdicts_ok:
                 continue
             back = list(validio.rows(interface.create_cid_from_string(text), io.StringIO(out.getvalue(), newline=""), on_error="yield"))
+            if back == expected:
+                # the same through the file system: Writer on a path, read back by path
+                import os
+                import tempfile
+                tmpd = tempfile.mkdtemp(prefix="c14rt")
+                try:
+                    fpath = os.path.join(tmpd, "out.csv")
+                    cid2 = interface.create_cid_from_string(text)
+                    def encodable(row):
+                        try:
+                            "".join(row).encode(cid2.data_format.encoding)
+                            return True
+                        except UnicodeEncodeError:
+                            return False
+
+                    storable = [row for row in expected if encodable(row)]
+                    with validio.Writer(cid2, fpath) as fw:
+                        for row in table[:header] + storable:
+                            fw.write_row(row)
+                    back = list(validio.rows(interface.create_cid_from_string(text), fpath, on_error="yield"))
+                    if back == storable:
+                        back = expected
+                finally:
+                    import shutil
+                    shutil.rmtree(tmpd, ignore_errors=True)
+                if back != expected:
+                    name = name + " (written to and read from a path)"
             if back != expected:
                 diff = next((i for i, (a, b) in enumerate(zip(back, expected)) if a != b), min(len(back), len(expected)))
                 failures.append(dict(key="writer-delimited-roundtrip", what="dialect %s: output read back differs at row %d: got %r, "
